@@ -166,7 +166,6 @@ class Property(css_parser.util.Base):
                 # parse into a scratch property: each setter may raise and
                 # a rejected text must leave this property as it was
                 new = Property(_mediaQuery=self._mediaQuery, parent=self.parent)
-                new.wellformed = True
                 new.name = nametokens
                 new.propertyValue = valuetokens
                 new.priority = prioritytokens
@@ -253,8 +252,6 @@ class Property(css_parser.util.Base):
 #                if self.propertyValue:
 #                    self.propertyValue._propertyName = self._name
 #                    #self.valid = self.propertyValue.valid
-        else:
-            self.wellformed = False
 
     name = property(lambda self: self._name, _setName,
                     doc="Name of this property.")
